@@ -268,7 +268,10 @@ def write_evidence(prop, tier, seed, level, coverage, assumptions, wall_s, viola
     for k in ("evaluations", "distinct_nontrivial", "rule", "samples"):
         if k not in coverage:
             raise HarnessError(f"evidence coverage lacks {k}")
-    path = os.path.join(EVIDENCE_DIR, f"{prop}.json")
+    # evidence describes /repo itself; a run against a scratch copy (VERIF_REPO) must not overwrite it
+    edir = EVIDENCE_DIR if not os.environ.get("VERIF_REPO") else os.path.join(VERIF, "replays", "scratch-evidence")
+    os.makedirs(edir, exist_ok=True)
+    path = os.path.join(edir, f"{prop}.json")
     tmp = path + ".tmp"
     with open(tmp, "w") as f:
         json.dump(ev, f, indent=1, sort_keys=True, default=str)
@@ -332,3 +335,11 @@ def pmap(fn, args, workers=None, wall_cap=300, batch_cap=None, initializer=None,
 def tier():
     t = os.environ.get("VERIF_TIER", "quick")
     return t if t in ("quick", "thorough") else "quick"
+
+
+def dump_digests(pairs):
+    """Determinism self-test hook: write [(run id, digest)] if VERIF_DIGESTS names a file."""
+    path = os.environ.get("VERIF_DIGESTS")
+    if path:
+        with open(path, "w") as f:
+            json.dump(sorted([str(a), str(b)] for a, b in pairs), f)
